@@ -73,7 +73,7 @@ def m_iter_identity(engine, st, fr, callee, args, ops):
     return args[0]
 
 
-def _pred_conditions(engine, st, items, clo):
+def _pred_conditions(engine, st, items, clo, by_ref=False):
     if not isinstance(clo, sym.FnV):
         raise mir.Unsupported("predicate %r" % (clo,))
     fn = engine.resolve_fn(clo.name)
@@ -81,6 +81,10 @@ def _pred_conditions(engine, st, items, clo):
     st.mem[cell] = clo
     conds = []
     for it in items:
+        if by_ref:       # take_while / filter / find hand the predicate `&Self::Item`
+            icell = ("h", engine.fresh_name("item"))
+            st.mem[icell] = it
+            it = sym.Ref(icell, ())
         res = engine.call_pure(st, fn, [sym.Ref(cell, (), True), it])
         if len(res) != 1 or res[0].status != "return":
             raise mir.Unsupported("the predicate forks or panics: %r" % (res,))
@@ -110,6 +114,37 @@ def m_position(engine, st, fr, callee, args, ops):
     return sym.Fork(alts)
 
 
+def m_take_while(engine, st, fr, callee, args, ops):
+    """`iter.take_while(pred)`: the longest prefix whose elements all satisfy the (real, MIR-executed) predicate; the predicate's
+    answers must be concrete here."""
+    items = _citer(engine, st, args[0])
+    conds = _pred_conditions(engine, st, items, args[1], by_ref=True)
+    out = []
+    for it, c in zip(items, conds):
+        c = z3.simplify(c)
+        if z3.is_true(c):
+            out.append(it)
+        elif z3.is_false(c):
+            break
+        else:
+            raise mir.Unsupported("take_while with a symbolic predicate value")
+    return sym.Adt("CIter", None, [sym.Arr(out)])
+
+
+def m_citer_next(engine, st, fr, callee, args, ops):
+    r = args[0]
+    it = sym._deref_arg(engine, st, r)
+    if isinstance(it, sym.Adt) and it.ty == "SliceIterC":
+        return sym.m_slice_iter_next(engine, st, fr, callee, args, ops)
+    if not (isinstance(it, sym.Adt) and it.ty == "CIter"):
+        raise mir.Unsupported("next on %r" % (it,))
+    items = it.fields[0].items
+    if not items:
+        return sym.Adt("Option", "None", [])
+    engine.write_at(st, r.root, list(r.path), sym.Adt("CIter", None, [sym.Arr(items[1:])]))
+    return sym.Adt("Option", "Some", [items[0]])
+
+
 def m_count(engine, st, fr, callee, args, ops):
     return z3.BitVecVal(len(_citer(engine, st, args[0])), 64)
 
@@ -122,6 +157,9 @@ MODELS = [
     (r"^core::num::<impl usize>::saturating_sub$", m_saturating_sub),
     (r"^<std::slice::Iter<'_, .*> as Iterator>::zip::<", m_zip),
     (r"^<std::slice::Iter<'_, .*> as IntoIterator>::into_iter$", m_iter_identity),
+    (r" as Iterator>::take_while::<", m_take_while),
+    (r"^<(TakeWhile|Zip|StepBy)<.*> as IntoIterator>::into_iter$", m_iter_identity),
+    (r"^<(std::slice::Iter<'_, .*>|TakeWhile<.*>|Zip<.*>|StepBy<.*>) as Iterator>::next$", m_citer_next),
     (r" as Iterator>::all::<", m_all),
     (r" as Iterator>::any::<", m_any),
     (r" as Iterator>::position::<", m_position),
